@@ -18,6 +18,7 @@ def main():
     ap.add_argument('--replay')
     ap.add_argument('--selftest', action='store_true')
     ap.add_argument('--no-fixtures', action='store_true')
+    ap.add_argument('--cfg', help='thorough tier: restrict the extra configurations (comma list)')
     a = ap.parse_args()
     if a.selftest:
         from core import selftest
@@ -34,7 +35,19 @@ def main():
         if not a.no_fixtures:
             from core import selftest
             selftest.run_for(a.prop, run)
-        return props.PROPS[a.prop](run)
+        if a.tier != 'thorough':
+            return props.PROPS[a.prop](run)
+        # thorough: the same rules over every build configuration in which the property's code exists
+        cfgs = ['base'] + [c for c in props.VARIANTS.get(a.prop, []) if not a.cfg or c in a.cfg.split(',')]
+        run.defer = True
+        for cfg in cfgs:
+            run.cfg = cfg
+            run.notes.append('--- configuration %s' % cfg)
+            props.PROPS[a.prop](run)
+        run.defer = False
+        run.cfg = 'base'
+        run.stats['configurations'] = len(cfgs)
+        return run.finish(run._explanation + ' Thorough tier: the same rules were run over the build configurations ' + ', '.join(cfgs) + '.')
     except AnalysisBroken as e:
         print('ANALYSIS-BROKEN property=%s: %s' % (a.prop, e))
         return 2
